@@ -623,7 +623,8 @@ def check(eng, rep, prop):
             if ok:
                 rep.holds("R5", prop + ".R5", s.func.qname, "template:" + s.sig, reason, site=site)
             else:
-                (rep.error if moved else rep.violation)("R5", prop + ".R5", s.func.qname, "template-escapes:" + s.sig, why, site=site)
+                (rep.error if (moved or ok is None) else rep.violation)("R5", prop + ".R5", s.func.qname,
+                                                                        "template-escapes:" + s.sig, why, site=site)
         elif cat == "counter-suffix":
             ok, why = counter_suffix_ok(prog, s)
             if ok:
@@ -686,7 +687,11 @@ def _same_unit(prog, f_a, fshort_b):
     """Function f_a and the function named fshort_b belong to the same class (or, for module functions, module)."""
     fb = _find_function(prog, fshort_b)
     if fb is None:
-        return False
+        # the listed function is gone altogether (merged into a sibling): same unit = same class / module by name
+        head = fshort_b.rpartition(".")[0]
+        if f_a.cls is not None:
+            return any(prog.classes[q].name == head for q in f_a.cls.mro if q in prog.classes)
+        return f_a.module.rsplit(".", 1)[-1] == head
     if f_a.cls is not None and fb.cls is not None:
         return f_a.cls.qname in fb.cls.mro or fb.cls.qname in f_a.cls.mro
     return f_a.module == fb.module
@@ -846,6 +851,14 @@ def template_ok(prog, s: NameSite):
             return False, "a caller of %s does not eliminate the template through substitute() before returning" % s.func.name
     rets = [r for r in ast.walk(fn) if isinstance(r, ast.Return) and r.value is not None]
     if len(rets) != 1:
+        def _is_sub(r):
+            return isinstance(r.value, ast.Call) and isinstance(r.value.func, ast.Attribute) and r.value.func.attr == "substitute"
+        if any(_is_sub(r) for r in rets):
+            # one path still eliminates the template through substitute(); the other(s) are a shortcut whose freshness
+            # argument (a guard on the operands' variables, a different construction) the rule cannot follow
+            return None, "besides the path through substitute() the function has another return path that keeps the " \
+                         "template name; whether that path is guarded against a clash with the operands' names is not " \
+                         "something this rule can follow"
         return False, "template function has several return paths"
     return False, "the template grammar is not eliminated through substitute() before returning"
 
@@ -872,6 +885,10 @@ def counter_suffix_ok(prog, s: NameSite):
             if len(makers) == 1 and isinstance(makers[0].value, ast.Call) and \
                     ast.unparse(makers[0].value.func).split(".")[-1] == "count":
                 return True, ""
+    from .flow import enumerate_offsets
+    enum = enumerate_offsets(fn)
+    if enum is not None and any(isinstance(x, ast.Name) and x.id in enum[2] for e in exprs for x in ast.walk(e)):
+        return (True, "") if enum[0] else (False, enum[1])
     ctr = [x.id for e in exprs for x in ast.walk(e) if isinstance(x, ast.Name) and x.id not in ("str",) and not x.id.isupper()
            and x.id != "variable"]
     for c in ctr:
